@@ -35,7 +35,10 @@ def _run_impl(case: dict) -> dict:
     from aioslsk.search.manager import SearchManager
     from aioslsk.settings import Settings, WishlistSettingEntry
     from aioslsk.events import (EventBus, SearchResultEvent, SearchRequestRemovedEvent, SearchRequestSentEvent,
-                                MessageReceivedEvent, ConnectionStateChangedEvent)
+                                MessageReceivedEvent, ConnectionStateChangedEvent, SessionInitializedEvent,
+                                SessionDestroyedEvent)
+    from aioslsk.session import Session
+    from aioslsk.user.model import User
     from aioslsk.protocol.messages import PeerSearchReply, WishlistInterval
     from aioslsk.network.connection import ServerConnection, PeerConnection, ConnectionState
     from aioslsk.utils import ticket_generator
@@ -97,7 +100,18 @@ def _run_impl(case: dict) -> dict:
                 draw_count[0] += 1
                 open_draws.setdefault(tk_, []).append(draw_count[0])
                 yield tk_
-        m._ticket_generator = counting(m._ticket_generator)
+        # the generator object in use is wrapped; should the code replace its generator (round 6: a "reset" at a session
+        # change), the new one is wrapped as soon as the op is over, so that draws keep being counted where they happen
+        wrapped = [None]
+
+        def wrap_generator():
+            if m._ticket_generator is wrapped[0]:
+                return False
+            wrapped[0] = m._ticket_generator = counting(m._ticket_generator)
+            return True
+        wrap_generator()
+        session_no = [0]
+        sess_told = [0]
         server_conn = Mock(spec=ServerConnection)
         peer_conn = Mock(spec=PeerConnection)
         peer_conn.disconnect = AsyncMock()
@@ -383,6 +397,20 @@ def _run_impl(case: dict) -> dict:
                     await bus.emit(MessageReceivedEvent(message=WishlistInterval.Response(op[1]), connection=server_conn))
                 elif k == 'wlclose':
                     await bus.emit(ConnectionStateChangedEvent(connection=server_conn, state=ConnectionState.CLOSING))
+                elif k == 'sessdown':
+                    # the server session is lost (client.py:379-385 emits this when the server connection is CLOSED)
+                    if len(op) > 1:
+                        raise _UnknownOp(f'unknown op {op}')
+                    await bus.emit(SessionDestroyedEvent(session=Session(
+                        user=User('u'), ip_address='1.2.3.4', greeting='', client_version=157, minor_version=100)))
+                elif k == 'sessup':
+                    # logged in (again): client.py:203-216
+                    if len(op) > 1:
+                        raise _UnknownOp(f'unknown op {op}')
+                    session_no[0] += 1
+                    await bus.emit(SessionInitializedEvent(session=Session(
+                        user=User('u'), ip_address='1.2.3.4', greeting=f'session {session_no[0]}', client_version=157,
+                        minor_version=100), raw_message=Mock()))
                 elif k == 'remove':
                     try:
                         m.remove_request(op[1])
@@ -486,6 +514,11 @@ def _run_impl(case: dict) -> dict:
             st['blocked'] = sorted(k_ for k_, e_ in sends.items() if k_ is not None and not e_['fut'].done())
             st['insetup'] = sorted(k_ for k_ in sends if k_ is not None)
             st['timerless'] = sorted(tk for tk, r in m.requests.items() if r.timer is None)
+            if k in ('sessup', 'sessdown') and not st.get('raised'):
+                sess_told[0] = int(k == 'sessup')
+            # (`_session` is a private attribute: if a refactoring stores the session elsewhere, nothing is compared)
+            st['sess'] = int(m._session is not None) if hasattr(m, '_session') else sess_told[0]
+            st['regen'] = wrap_generator()      # the code replaced its ticket generator during this op
             if lis:
                 # removal reports still running: [ticket, listeners entered so far]
                 st['rep'] = sorted([tk, sum(1 for x in lrec['enter'] if x[0] == 'X' and x[3] == r)]
@@ -564,7 +597,7 @@ def _line(st: dict) -> str:
     rep = f" rep={','.join(f'{a}:{b}' for a, b in st['rep'])}" if 'rep' in st else ''
     return (f"{' '.join(toks)} | live={','.join(map(str, st['after']))} armed={','.join(map(str, st['armed']))} "
             f"res={','.join(f'{a}:{b}' for a, b in st['res'])} pend={st['pend']}{rep} "
-            f"setup={','.join(map(str, st.get('blocked', [])))} now={st['t1']}")
+            f"setup={','.join(map(str, st.get('blocked', [])))} sess={st.get('sess', 0)} now={st['t1']}")
 
 
 def _impl_lines(tr: dict) -> list[str]:
@@ -1611,6 +1644,145 @@ def _fixed_setup() -> list[dict]:
     return out
 
 
+def _gen_relogin(rng: random.Random) -> dict:
+    """MODELLED (Search.step, ops `sessionDestroyed` / `sessionInitialized`): the server session is lost and the client
+    logs in again, once to three times, while requests are alive — requests without a timeout, with a long one, wishlist
+    requests, requests still suspended in the send of their set-up.  In every session: searches of the three kinds,
+    wishlist rounds, replies for old and new tickets, removals, Timer.cancel / reschedule, time passing.  The order of
+    the events around a loss is the client's: ConnectionStateChangedEvent(CLOSING) [`wlclose`] … SessionDestroyedEvent
+    [`sessdown`] … SessionInitializedEvent [`sessup`] … WishlistInterval message [`wlmsg`]; peers keep answering and the
+    user keeps calling while logged out."""
+    cfg = _gen_cfg(rng)
+    if rng.random() < 0.85:
+        cfg['initial'] = 1
+    cfg['rt'] = rng.choice([0, 0, 0, 3, 6, 6, 12, 30])
+    cfg['wt'] = rng.choice([-1, -1, 0, 0, 5, 9])
+    guess = _tickets(cfg['initial'], 16)
+    ops: list = []
+    drawn = [0]
+
+    def a_ticket():
+        if rng.random() < 0.9:
+            return rng.choice(guess[:max(1, min(len(guess), drawn[0] + 1))])
+        return rng.choice([0, 1, 999999, MAXT, guess[-1]])
+
+    def acts(n, logged_in):
+        for _ in range(n):
+            r = rng.random()
+            tk = a_ticket()
+            if r < 0.36:
+                ops.append(['search', rng.choice(['net', 'room', 'user'])])
+                drawn[0] += 1
+            elif r < 0.44 and logged_in:
+                ops.extend([['wlmsg', rng.choice([2, 4, 9, 15])], rng.choice([['sleep', 0], ['tick'], ['sleep', 1]])])
+                drawn[0] += sum(cfg['items'])
+            elif r < 0.60:
+                ops.append(['reply', tk])
+            elif r < 0.69:
+                ops.append([rng.choice(['remove', 'removeobj']), tk])
+            elif r < 0.75:
+                ops.append(rng.choice([['tcancel', tk], ['tresched', tk, rng.choice([1, 3, 8])]]))
+            elif r < 0.88:
+                ops.append(rng.choice([['sleep', 0], ['sleep', 1], ['sleep', 2], ['jump', 1], ['jump', 3]]))
+            else:
+                ops.append(['tick'])
+
+    if rng.random() < 0.7:
+        ops.append(['sessup'])
+        if rng.random() < 0.6:
+            ops.extend([['wlmsg', rng.choice([3, 9, 15])], ['sleep', 0]])
+            drawn[0] += sum(cfg['items'])
+    acts(rng.randint(1, 4), True)
+    for _ in range(rng.choice([1, 1, 1, 2, 3])):
+        held = None
+        # (a generator that starts next to 2^32 repeats its tickets after a few draws: two suspended set-ups could then
+        #  hold the SAME ticket — outside the property's scope, and the harness addresses a suspended send by its ticket;
+        #  such a configuration makes the same calls without closing the gate)
+        gate_ok = cfg['initial'] == 1
+        if rng.random() < 0.2:
+            # a request is suspended in the send of its set-up while the session goes
+            ops.extend(([['gate', 1]] if gate_ok else []) + [['search', rng.choice(['net', 'room', 'user'])]])
+            drawn[0] += 1
+            held = guess[min(drawn[0], len(guess)) - 1]
+        ops.append(['wlclose'])
+        acts(rng.choice([0, 0, 0, 1]), False)
+        ops.append(['sessdown'])
+        if held is not None:
+            fate = [rng.choice([['sendfail', held], ['sendfail', held], ['sendok', held], ['ccancel', held]]),
+                    ['gate', 0], rng.choice([['tick'], ['sleep', 0]])]
+            ops.extend(fate if gate_ok else fate[2:])
+        acts(rng.choice([0, 0, 1, 2]), False)
+        ops.append(['sessup'])
+        if rng.random() < 0.75:
+            ops.extend([['wlmsg', rng.choice([2, 4, 9, 15])], rng.choice([['sleep', 0], ['tick']])])
+            drawn[0] += sum(cfg['items'])
+        acts(rng.randint(1, 5), True)
+    ops += [['reply', a_ticket()], ['wlclose'], ['sleep', rng.choice([0, 4, 13, 31])], ['reply', a_ticket()],
+            ['reply', a_ticket()]]
+    return {'cfg': cfg, 'ops': ops, 'kind': 'relogin'}
+
+
+def _fixed_relogin() -> list[dict]:
+    """one or two requests of each kind of lifetime (no timeout / a long one / server wishlist interval) survive the
+    loss of the session; the next session makes 1-3 new requests; every ticket is answered, time passes, every ticket
+    is answered again"""
+    out = []
+    b = {'store': 1, 'initial': 1}
+    srcs = [(dict(b, rt=0, wt=-1, items=[]), [['search', 'net']], 1),
+            (dict(b, rt=0, wt=-1, items=[]), [['search', 'user'], ['search', 'room']], 2),
+            (dict(b, rt=9, wt=-1, items=[]), [['search', 'room'], ['sleep', 1]], 1),
+            (dict(b, rt=0, wt=-1, items=[1, 1]), [['wlmsg', 12], ['sleep', 0]], 2),
+            (dict(b, rt=4, wt=0, items=[1]), [['search', 'net'], ['wlmsg', 5], ['sleep', 0]], 2)]
+    for cfg, pre, n in srcs:
+        for k in (1, 2, 3):
+            for gap in ([], [['jump', 2]], [['sleep', 1], ['reply', 2]]):
+                tks = list(range(2, 2 + n + k + sum(cfg['items'])))
+                out.append({'cfg': dict(cfg), 'kind': 'relogin',
+                            'ops': [['sessup']] + pre + [['wlclose'], ['sessdown']] + gap + [['sessup'], ['wlmsg', 12]] +
+                            [['search', ('net', 'room', 'user')[j % 3]] for j in range(k)] + [['sleep', 0]] +
+                            [['reply', t] for t in tks] + [['wlclose'], ['sleep', 13]] + [['reply', t] for t in tks]})
+    # the session goes while a request is suspended in its send; two losses in a row; a loss without a session
+    out.append({'cfg': dict(b, rt=0, wt=-1, items=[]), 'kind': 'relogin',
+                'ops': [['sessup'], ['search', 'net'], ['gate', 1], ['search', 'user'], ['wlclose'], ['sessdown'],
+                        ['sendfail', 3], ['gate', 0], ['tick'], ['sessup'], ['search', 'room'], ['search', 'net'],
+                        ['reply', 2], ['reply', 3], ['reply', 4], ['reply', 5], ['sleep', 1]]})
+    out.append({'cfg': dict(b, rt=6, wt=-1, items=[1]), 'kind': 'relogin',
+                'ops': [['sessup'], ['wlmsg', 8], ['sleep', 0], ['search', 'net'], ['wlclose'], ['sessdown'], ['sessup'],
+                        ['wlclose'], ['sessdown'], ['sessdown'], ['jump', 1], ['sessup'], ['wlmsg', 8], ['search', 'user'],
+                        ['sleep', 0], ['reply', 2], ['reply', 3], ['reply', 4], ['reply', 5], ['sleep', 6], ['reply', 2],
+                        ['reply', 4], ['sleep', 3], ['reply', 5]]})
+    return out
+
+
+def _relogin_stats(case, tr) -> dict:
+    """`relogin` family: requests that were registered when a session was destroyed and (a) were still registered when a
+    request of a later session was announced, (b) got a reply reported after the next login, (c) timed out after it"""
+    out: dict = {}
+    survivors: set = set()        # harness ids of requests registered at a `sessdown`
+    reg: dict = {}                # ticket -> harness id, by the events
+    up = False
+    for op, st in zip(case['ops'], tr['steps']):
+        for t, kind, tk, rid, stype, rtk in st['events']:
+            if kind == 'S':
+                if up and any(reg.get(k_) == r_ for k_ in st['after'] for r_ in survivors):
+                    out['new-request-beside-survivor'] = out.get('new-request-beside-survivor', 0) + 1
+                reg[tk] = rid
+            elif kind == 'R' and rid in survivors and up:
+                out['survivor-answered-after-login'] = out.get('survivor-answered-after-login', 0) + 1
+            elif kind == 'X' and rid in survivors and up:
+                out['survivor-timed-out-after-login'] = out.get('survivor-timed-out-after-login', 0) + 1
+        if op[0] == 'sessdown':
+            survivors |= {reg[k_] for k_ in st['after'] if k_ in reg}
+            if st.get('insetup'):
+                out['set-up-suspended-at-session-loss'] = out.get('set-up-suspended-at-session-loss', 0) + 1
+            up = False
+        elif op[0] == 'sessup' and survivors:
+            up = True
+        if st.get('regen'):
+            out['generator-replaced'] = out.get('generator-replaced', 0) + 1
+    return out
+
+
 # known defects of the unchanged tree (repaired by the proposed patches) — replayed on every run
 W_REMOVE = {'cfg': {'rt': 5, 'wt': -1, 'store': 1, 'initial': 1, 'items': []}, 'kind': 'witness',
             'ops': [['search', 'net'], ['remove', 2], ['sleep', 10]]}
@@ -1786,6 +1958,13 @@ class C18(Property):
             'caller\'s task; the wishlist task through a WishlistInterval message, server closing, stop()) — before or after '
             'the network answered —, the user removes the ticket, a reply with it arrives, time passes, other timers '
             'expire, the gate opens; '
+            'a MODELLED family `relogin` (n/5 + 47 fixed, ops `sessdown` = SessionDestroyedEvent, `sessup` = '
+            'SessionInitializedEvent): the server session is lost and the client logs in again 1-3 times while requests '
+            'are alive (no timeout, timeouts 3..30 s, wishlist requests with the server interval or an own timeout, a '
+            'request suspended in the send of its set-up when the session goes); in every session searches of the three '
+            'kinds, wishlist rounds, replies for tickets of this and of earlier sessions, removals by ticket / by object, '
+            'Timer.cancel / reschedule, single iterations, time passing; also while logged out; the events around a loss '
+            'come in the client\'s order (CLOSING, SessionDestroyed, SessionInitialized, WishlistInterval); '
             'derived from VERIF_SEED. Non-trivial: at least one timeout removal happened AND a reply/removal hit a '
             'ticket that was registered earlier, or a removal / cancel / re-arm hit an armed timer; distinct = '
             'distinct canonical case; a gated case is non-trivial when a removal, a timeout or another reply '
@@ -1793,7 +1972,9 @@ class C18(Property):
             'suspended while a result / removal went to >= 2 extra listeners (or a `resume` made the next listener '
             'be told); an iter case is non-trivial when a removal happened and an action hit a live request / armed '
             'timer at a counted iteration offset; a setup case when a failure, a cancellation, a removal or a reply '
-            'happened while a request was suspended in its set-up')
+            'happened while a request was suspended in its set-up; a relogin case when a request that was registered '
+            'at a session loss was still registered when a request of a later session was announced AND was answered or '
+            'timed out after that login')
     assumptions = [
         'send_server_messages of the network stub returns at once or — while the schedule has closed the gate — '
         'suspends until released / failed / its owner is cancelled (modelled: State.pending); send_peer_messages and '
@@ -1828,6 +2009,11 @@ class C18(Property):
         'suspension inside connection.disconnect() of the reply handler is exercised by the monitor-only `gated` '
         'family (event order only); the Lean model keeps the handler atomic',
         'WishlistInterval(0) makes the wishlist BackgroundTask spin without sleeping; not generated, not modelled',
+        'session changes (round 6): SessionDestroyedEvent is generated only after ConnectionStateChangedEvent(CLOSING) of '
+        'the server connection (client.py emits it on CLOSED; the wishlist task is therefore not running while logged '
+        'out) and a WishlistInterval message only while logged in; search*() while logged out is generated (the stub '
+        'network accepts or — gated — fails the send); the harness wraps whatever object is SearchManager.'
+        '_ticket_generator after every op, so draws stay counted if the code replaces its generator',
     ]
     modelled = ('search/manager.py: search, search_room, search_user, _wishlist_job, _get_wishlist_request_timeout, '
                 '_attach_request_timer_and_emit, _timeout_search_request, remove_request, _on_peer_search_reply '
@@ -1840,6 +2026,8 @@ class C18(Property):
                 'sleeping, woken, callback; cancel in any phase) and of the wishlist task; the set-up of a request '
                 'around `await send_server_messages` in search / search_room / search_user / _wishlist_job '
                 '(Search.beginSetup / register / completeOne / roundGo, cancelWishlist); '
+                'round 6: _on_session_destroyed / _on_session_initialized (State.session; the ticket generator, the '
+                'registry, the timers, set-ups in progress and wishlist_interval survive); '
                 'not modelled: incoming searches (_query_shares_and_reply), listener delivery of result / sent events '
                 '(monitor-only), asyncio itself (the ready queue order inside one iteration)')
 
@@ -1865,6 +2053,8 @@ class C18(Property):
         cases += _fixed_iter() + [_gen_iter(rng6) for _ in range(n // 5)]
         rng7 = random.Random(f'C18-setup-{seed}')
         cases += _fixed_setup() + [_gen_setup(rng7) for _ in range(n // 5)]
+        rng8 = random.Random(f'C18-relogin-{seed}')
+        cases += _fixed_relogin() + [_gen_relogin(rng8) for _ in range(n // 5)]
         return cases
 
     def correspondence(self, seed, tier, model_ok, widen=1):
@@ -1945,6 +2135,14 @@ class C18(Property):
                        and not key.endswith('(other)') for key in g):
                     res.nontrivial_keys.add(common.sha([c['cfg'], c['ops']]))
                     res.count('setup-nontrivial')
+            elif c['kind'] == 'relogin':
+                g = _relogin_stats(c, tr)
+                for key, v in g.items():
+                    res.count('relogin:' + key, v)
+                if g.get('new-request-beside-survivor') and (g.get('survivor-answered-after-login') or
+                                                             g.get('survivor-timed-out-after-login')):
+                    res.nontrivial_keys.add(common.sha([c['cfg'], c['ops']]))
+                    res.count('relogin-nontrivial')
             elif c['kind'] != 'notify' and _nontrivial(c, tr):
                 res.nontrivial_keys.add(common.sha([c['cfg'], c['ops']]))
             il = _impl_lines(tr)
